@@ -14,9 +14,10 @@ EXTENDS Naturals, Sequences, FiniteSets, TLC, Json, IOUtils, SequencesExt, Finit
 CONSTANTS Depth2   \* TRUE: also containers holding one container
 
 Plains == {"num", "str", "bool", "none"}
-\* (qarr, qarr2: array-valued quantities of one and of two dimensions)
+\* (qarr, qarr2: array-valued quantities of one and of two dimensions;
+\*  nparr2: a plain array of two dimensions, in whatever memory order)
 Leaves == Plains \cup {"npscalar", "nparr", "qfin", "qnan", "qinf", "unit", "proc",
-                       "func", "unsup", "qarr", "qarr2"}
+                       "func", "unsup", "qarr", "qarr2", "nparr2"}
 L(t) == [t |-> t, kids |-> <<>>, q |-> "-"]
 ERR == L("ERR")
 ListOf(a, b) == [t |-> "list", kids |-> <<a, b>>, q |-> "-"]
@@ -28,6 +29,7 @@ Ser(v) ==
     [] v.t \in {"ustr", "pstr", "fstr"} -> v          \* already serialized: strings
     [] v.t = "npscalar" -> L("num")
     [] v.t = "nparr" -> [t |-> "list", kids |-> <<L("num"), L("num")>>, q |-> "-"]
+    [] v.t = "nparr2" -> ListOf(ListOf(L("num"), L("num")), ListOf(L("num"), L("num")))
     [] v.t \in {"qfin", "qnan", "qinf", "unit"} -> [t |-> "ustr", kids |-> <<>>, q |-> v.t]
     \* an array-valued quantity: one string per element, nested like the array
     [] v.t = "qarr" -> ListOf(UStr("qfin"), UStr("qfin"))
@@ -58,6 +60,7 @@ RECURSIVE Canon(_)
 Canon(v) ==
   CASE v.t = "npscalar" -> L("num")
     [] v.t = "nparr" -> [t |-> "list", kids |-> <<L("num"), L("num")>>, q |-> "-"]
+    [] v.t = "nparr2" -> ListOf(ListOf(L("num"), L("num")), ListOf(L("num"), L("num")))
     [] v.t = "unit" -> L("qone")
     [] v.t = "qarr" -> ListOf(L("qfin"), L("qfin"))
     [] v.t = "qarr2" -> ListOf(ListOf(L("qfin"), L("qfin")), ListOf(L("qfin"), L("qfin")))
